@@ -8,7 +8,7 @@ from ..universe import PK
 ID = "C12"
 LEVEL = "model_checking"
 MAX_LIMIT = 3
-ASSUMPTIONS = ["see C09; Config.max_limit = 3 set before nostr_relay.storage is imported"]
+ASSUMPTIONS = ["real nostr_relay code imported from /repo's working tree, driven through web.start_client / the storage API; SQLite runs for real behind a same-thread connection shim (bound to real aiosqlite by C06's conformance cases); LMDB is an in-memory double (bound to the real liblmdb by C10's conformance cases), msgpack is pip's pure-python codec; asyncio runs on a controlled virtual-time loop; Config.max_limit = 3 set before nostr_relay.storage is imported"]
 CHUNK = 1
 
 LIMITS = [None, 0, 1, 2, 3, 4, 10]
